@@ -179,6 +179,16 @@ def default_source(token: str) -> str:
 # definitions
 # ------------------------------------------------------------------------------------------------
 
+# Order of first use.  DataClassPayload converts a class lazily (at its first instantiation) and keeps the result in
+# class attributes that subclasses inherit, so "who is used first, and how" is part of the input:
+#   None            the class itself is constructed first (then packed, then decoded)
+#   "decode"        the class itself is decoded first (a node that receives a message before it ever built one)
+#   "parent-ctor"   derived shapes: an instance of the base class is constructed before the class is used
+#   "parent-decode" derived shapes: the base class is decoded before the class is used
+#   "parent-ctor+decode", "parent-decode+decode"   the base class is used, then the class itself is decoded first
+FIRST_USES = (None, "decode", "parent-ctor", "parent-decode", "parent-ctor+decode", "parent-decode+decode")
+
+
 class Spec:
     """Python-level view of a JSON definition."""
 
@@ -209,6 +219,11 @@ class Spec:
             self.hooks = {int(i): m for i, m in defn.get("hooks", [])}
             self.shape = defn.get("shape", "flat")
             self.msg_id = MSG_ID if self.shape == "wid" else None
+        self.first = defn.get("first")        # which class is used first, and how (class state is built lazily)
+        if self.first not in FIRST_USES or (str(self.first).startswith("parent")
+                                            and not self.shape.startswith("derived")):
+            msg = f"no such order of first use for this shape: {defn}"
+            raise ValueError(msg)
         self.slices = []                      # per field: (first name index, number of names)
         j = 0
         for f in self.fields:
@@ -218,6 +233,14 @@ class Spec:
         if j != len(self.names):
             msg = f"names do not match formats: {defn}"
             raise ValueError(msg)
+
+    def parent(self) -> Spec | None:
+        """The definition of the base class of a derived shape (it holds the first field), as a program of its own."""
+        if not self.shape.startswith("derived"):
+            return None
+        n = self.slices[0][1]
+        hooks = [[i, m] for i, m in sorted(self.hooks.items()) if i < n]
+        return Spec({"f": [self.defn["f"][0]], **({"hooks": hooks} if hooks else {})})
 
     def alpha_key(self, f) -> str:  # noqa: ANN001
         if isinstance(f, tuple):
@@ -652,9 +675,54 @@ def evaluate(defn: dict, seed: int, b: dict, only_call: int | None = None) -> tu
     st["programs"] += 1
     st["forms_built"] += len(forms)
 
+    pspec = spec.parent()
+    for event in (spec.first or "").split("+") if spec.first else ():
+        # the first uses of the classes: every form (fresh classes, nothing instantiated yet) does the same thing
+        tspec, pick = (pspec, lambda c: c.__mro__[1]) if event.startswith("parent") else (spec, lambda c: c)
+        call = enum_calls(tspec, seed, {**b, "dev": 0, "wide": -1})[0]
+        ref = run_call(tspec, pick(build_plain(spec, ikids, compiled=False)), ikids, call)   # on a throw-away twin
+        if "decoded" not in ref:
+            continue
+        st["first_use_events"] += 1
+        for form, style, cls, kids in [("interp", None, ref_cls, ikids), *forms]:
+            got: dict = {}
+            try:
+                if event.endswith("ctor"):
+                    got["values"] = attrs(tspec, pick(cls)(*[mat(x, kids) for x in call[1]]))
+                else:
+                    obj, off = SER.unpack_serializable(pick(cls), ref["bytes"])
+                    got["decoded"] = (attrs(tspec, obj), off)
+            except Exception as e:  # noqa: BLE001
+                got["raises"] = _exc(e)
+            st["form_executions"] += 1
+            what = (f"first use = {spec.first}: {event} of {'Base' if event.startswith('parent') else 'P'}"
+                    f"{_call_source(call)[1:]} ({ref['bytes'].hex()})")
+            if "raises" in got:
+                found("first-use", form, style, None, f"{what}: raises {got['raises'][0]}: {got['raises'][1]}",
+                      got["raises"][0])
+            else:
+                k = "values" if "values" in got else "decoded"
+                if got[k] != ref[k]:
+                    found("first-use", form, style, None, f"{what}: {_show(got[k])} instead of {_show(ref[k])}")
+
     calls = enum_calls(spec, seed, b)
+    if pspec is not None:
+        # both classes of a derived shape are compared: the base class is used after the first call on the class
+        calls.insert(1, ("parent", *enum_calls(pspec, seed, {**b, "dev": 0, "wide": -1})[0][1:]))
     for idx, call in enumerate(calls):
         if only_call is not None and idx != only_call:
+            continue
+        if call[0] == "parent":
+            ref = run_call(pspec, ref_cls.__mro__[1], ikids, call)
+            st["calls"] += 1
+            st["style:parent"] += 1
+            for form, style, cls, kids in forms:
+                got = run_call(pspec, cls.__mro__[1], kids, call)
+                st["form_executions"] += 1
+                v = compare(ref, got)
+                if v is not None and v[0] != "ref-rejects":
+                    found("parent-" + v[0], form, style, idx, f"Base{_call_source(call)[1:]}: {v[1]}",
+                          got[v[0]][0] if v[0] in ("construct", "pack", "unpack") else "")
             continue
         ref = run_call(spec, ref_cls, ikids, call)
         st["calls"] += 1
@@ -700,7 +768,8 @@ def render(defn: dict, dc_style: str | None = "typevar") -> str:
     """Equivalent class statements, for humans."""
     spec = Spec(defn)
     if spec.lib is not None:
-        return f"shipped class {defn['lib']} (format_list={spec.lib.format_list!r}, names={spec.names!r})"
+        return (f"shipped class {defn['lib']} (format_list={spec.lib.format_list!r}, names={spec.names!r})"
+                + ("; its dataclass twin is decoded before it is ever constructed" if spec.first else ""))
 
     def fmt_src(f) -> str:  # noqa: ANN001
         return repr(f) if isinstance(f, str) else (f[1] if f[0] == "kid" else f"[{f[1]}]")
@@ -732,14 +801,27 @@ def render(defn: dict, dc_style: str | None = "typevar") -> str:
     lines += hooks
     if "bits" not in spec.fields and dc_style:
         base = f"DataClassPayload[{spec.msg_id}]" if spec.msg_id is not None else "DataClassPayload"
+        first = 0
+        if spec.shape.startswith("derived"):
+            lines.append(f"@dataclass\nclass Base(DataClassPayload):\n    {spec.names[0]}: "
+                         f"{_dc_type_source(spec.fields[0], dc_style)}")
+            base, first = "Base", 1
         lines.append(f"@dataclass\nclass P({base}):   # annotation style {dc_style}")
         for i, f in enumerate(spec.fields):
+            if i < first:
+                continue
             d = ""
             if dsrc is not None and i == len(spec.fields) - 1:
                 d = f" = field(default_factory=lambda: {dsrc})" if spec.default.startswith("list") else f" = {dsrc}"
             lines.append(f"    {spec.names[i]}: {_dc_type_source(f, dc_style)}{d}")
         lines += hooks
     lines.append("# C1 = [H, varlenH] names [x, y]; C2 = [varlenHutf8, [C1]] names [s, items] (same form as P)")
+    if spec.first:
+        for event in spec.first.split("+"):
+            lines.append({"decode": "# first use of P in the process: Serializer.unpack_serializable(P, <bytes>)",
+                          "parent-ctor": "# before P is used for the first time: Base(<value>)",
+                          "parent-decode": "# before P is used for the first time: "
+                                           "Serializer.unpack_serializable(Base, <bytes>)"}[event])
     return "\n".join(lines)
 
 
@@ -782,6 +864,9 @@ BLOCKS = {
 }
 
 
+FIRST_USE_DEV = {"quick": 0, "thorough": 1}     # instance deviations explored after a non-default first use
+
+
 def _rot12(step: int) -> list[tuple]:
     """12-field programs: the rotations of the twelve CORE formats other than 'raw' (so 'bits', the nested payload
     and the list visit every position); every other one ends in 'raw' and has 'I' in place of 'bits', which makes
@@ -813,7 +898,7 @@ def gen_defs(tier: str) -> tuple[list[tuple], list[dict]]:
     alphabets = {"ALL": [*REGISTERED, "payload", "payload-list"], "CORE": CORE, "SMALL": SMALL}
     items, seen, summary = [], set(), []
     for alpha, length, mode, hook_tokens, shapes, b in BLOCKS[tier]:
-        n0 = len(items)
+        n0, n_first = len(items), 0
         seqs = _rot12(int(alpha[6:])) if alpha.startswith("ROT12") else _seqs(alphabets[alpha], length)
         for s in seqs:
             hook_sets = []
@@ -840,13 +925,21 @@ def gen_defs(tier: str) -> tuple[list[tuple], list[dict]]:
                     if k not in seen:
                         seen.add(k)
                         items.append((d, b))
+                        if not h and dflt is None and "bits" not in s:
+                            # orders of first use: only the dataclass form has lazily built class state, so programs
+                            # without a dataclass form ('bits') are skipped; hooks and defaults do not take part in it
+                            fb = {**b, "dev": min(b["dev"], FIRST_USE_DEV[tier]), "wide": 0}
+                            for first in FIRST_USES[1:]:
+                                if shape.startswith("derived") or not first.startswith("parent"):
+                                    items.append(({**d, "first": first}, fb))
+                                    n_first += 1
         fmts = {"ALL": f"all {len(alphabets['ALL'])} registered formats"}.get(alpha, alphabets.get(alpha, CORE))
         summary.append({"formats": fmts if not alpha.startswith("ROT12") else "every %s rotation of CORE" % (
                             {"1": "", "4": "4th"}[alpha[6:]]),
                         "length": length, "format_sequences": len(seqs),
                         "defaults_on_last_field": "absent | every format-appropriate value in DEFAULTS | None",
                         "hook_sets": hook_tokens, "shapes": shapes, "hooks_x_shapes": mode, "instance_bounds": b,
-                        "programs": len(items) - n0})
+                        "programs": len(items) - n0, "of_which_first_use_orders": n_first})
     return items, summary
 
 
@@ -860,7 +953,7 @@ def lib_defs() -> list[dict]:
 
 def def_size(defn: dict) -> tuple:
     return (len(defn.get("f", ())) if "lib" not in defn else 99, "dflt" in defn, len(defn.get("hooks", ())),
-            defn.get("shape", "flat") != "flat", json.dumps(defn, sort_keys=True))
+            defn.get("shape", "flat") != "flat", "first" in defn, json.dumps(defn, sort_keys=True))
 
 
 def raw_key(defn: dict, v: dict) -> str:
@@ -869,13 +962,13 @@ def raw_key(defn: dict, v: dict) -> str:
         return f"{v['oracle']}:{v['form']}:{v['exc']}:{defn['lib']}"
     return ":".join([v["oracle"], v["form"], v["exc"], str(v["dc_style"]), (defn.get("dflt") or "-").partition(":")[0],
                      ",".join(m for _, m in defn.get("hooks", [])) or "-", "bits" if "bits" in defn["f"] else "-",
-                     defn.get("shape", "flat"), str(v["call"] is None)])
+                     defn.get("shape", "flat"), str(v["call"] is None), str(defn.get("first"))])
 
 
 def signature(defn: dict, v: dict) -> str:
     """The minimal distinguishing feature of a *reduced* failing program."""
     if "lib" in defn:
-        return f"shipped={defn['lib'].rpartition('.')[2]}"
+        return f"shipped={defn['lib'].rpartition('.')[2]}" + (f"|first={defn['first']}" if defn.get("first") else "")
     parts = []
     fmts = list(defn["f"])
     if "dflt" in defn:
@@ -891,12 +984,19 @@ def signature(defn: dict, v: dict) -> str:
         parts.append("shape=" + defn["shape"])
     if v["form"] == "dataclass" and v["dc_style"] not in (None, "typevar"):
         parts.append("style=" + v["dc_style"])
+    if defn.get("first"):
+        parts.append("first=" + defn["first"])
     return "|".join(parts) or "fmt=" + "+".join(defn["f"])
 
 
 def _shrinks(defn: dict) -> list[dict]:
     """One-step simplifications, most drastic first."""
     out = []
+    if defn.get("first"):
+        out.append({k: v for k, v in defn.items() if k != "first"})
+        out += [{**defn, "first": e} for e in defn["first"].split("+") if e != defn["first"]]
+        if defn["first"].startswith("parent"):
+            out.append({k: v for k, v in {**defn, "first": "decode"}.items() if k != "shape"})
     if defn.get("shape"):
         out.append({k: v for k, v in defn.items() if k != "shape"})
     if defn.get("hooks"):
